@@ -55,6 +55,13 @@ inline std::vector<T> multi_channel_refine_weights(
         sum_of_new_weights += new_weights[i];
     }
 
+    if (sum_of_new_weights == T())
+    {
+        // the adjustment data do not contain any information (e.g. every sampled value was zero),
+        // therefore leave the weights as they are instead of dividing by zero
+        return weights;
+    }
+
     T new_sum = T();
 
     for (T& weight : new_weights)
